@@ -58,6 +58,9 @@ ASSUMPTIONS = [
     "preconditions)",
     "str(float) of a finite float is -?d+(.d+)?(e[+-]?d+)? (contract of Python's repr; checked on every sampled number)",
     "np.format_float_positional(x, trim='0') prints the digits of the shortest repr shifted by the exponent (sampled)",
+    "orientations are valid orientations of the library (is_valid_orientation: within [-2 pi, 2 pi]) also after a value class changed "
+    "their type: np.float32(2 pi) = 6.2831855 is above 2 pi, the state constructors store it unchecked and the reader's occupancy "
+    "computation rejects it, so the generator rounds float32 orientations towards zero at the ends of the range",
     "outside the quantifier (named, no verdict): Scenario.remove_lanelet / erase_lanelet_network results that are no longer "
     "schema-expressible (an incoming left without lanelets; goal lanelets of the planning problems, which the scenario does not know) "
     "— decided by CR.C03.Expressible on the data read off the objects, counted as excluded_ambiguous / outside/history-left-the-quantifier; observation: LaneletNetwork.create_from_lanelet_network(network) (a plain copy) drops every incoming without successors but keeps the left_of references to it, so the copied scenario has a dangling reference and is not schema-expressible either (corpus/C03/outside_network_copy_dangling_left_of.json: model and code agree on the tree and on its being invalid); state positions given as "
